@@ -494,7 +494,7 @@ class Ctx:
             if t[0] == 'push' and len(t) >= 3 and isinstance(t[2], Poly):
                 join(*self.rng(t[2]))
                 t = t[1]
-            elif t[0] in ('retain', 'from', 'take', 'skip') and len(t) >= 2:
+            elif t[0] in ('retain', 'remove', 'from', 'take', 'skip') and len(t) >= 2:
                 t = t[1]
             elif t in (('new',), ('clear',)):
                 return (lo, hi) if lo is not None else (Fr(0), Fr(0))
